@@ -613,8 +613,73 @@ def r5_rope_shape(ctx):
                   "Concat.total_length is not the sum of both halves' len(): len()/byte_at()/flattening disagree about the rope's size", cb.loc(bi, si))
 
 
+REVIEWED_RECURSION = {
+    "quiver_core::binary::BinaryData::byte_at": "descends one rope level per call (Slice / Concat / Tiled child); depth = rope nesting",
+    "quiver_core::binary::BinaryData::find_byte": "descends one rope level per call; depth = rope nesting",
+    "quiver_core::binary::BinaryData::len": "Tiled delegates to its unit; depth = Tiled nesting",
+    "quiver_core::binary::BinaryData::to_vec": "to_vec <-> write_to_vec: only through the shallow Slice / Tiled arms; Concat spines are walked with an explicit stack",
+    "quiver_core::binary::BinaryData::write_to_vec": "see to_vec",
+}
+
+
+def r6_recursion(ctx):
+    R = "R-C12-6"
+    ctx.rule(R, "stack safety of the builtins: the functions reachable from the pure builtins that are (mutually) recursive are exactly the reviewed "
+                "ones; a new recursive function on these paths recurses to a depth the ARGUMENT decides (a rope built by 100 000 appends), i.e. a stack "
+                "overflow that aborts the worker — and the flattening walk over Concat spines stays iterative (its Concat arm makes no call back into "
+                "the recursive group)")
+    F = ctx.facts
+    with F.raw_mode():          # recursion is a property of the functions as written (an inlined helper would hide its own cycle)
+        roots = builtin_roots(F)
+        reach = reach_set(F, roots)
+        edges = {k: {c for c in mir_refs(F.body(k).mir, False) if c in reach or c in F.fns} for k in reach}
+        locs = {k: F.body(k).loc(0) for k in reach}
+
+    def reaches(a, b_):
+        seen = set()
+        work = [a]
+        while work:
+            k = work.pop()
+            for n in edges.get(k, ()):
+                if n == b_:
+                    return True
+                if n not in seen and n in edges:
+                    seen.add(n)
+                    work.append(n)
+        return False
+    rec = sorted(k for k in reach if reaches(k, k))
+    for k in rec:
+        base = k.split("::{closure")[0]
+        if base in REVIEWED_RECURSION:
+            ctx.exception(R, base + "|recursive", "reviewed: " + REVIEWED_RECURSION[base], locs[k])
+        else:
+            ctx.violated(R, base + "|recursive", "a new (mutually) recursive function on the builtins' paths: its recursion depth is decided by the shape of the "
+                                                 "argument (rope nesting), so a long append-built binary overflows the stack and aborts the worker", locs[k])
+    ctx.floor(R, "recursive functions on the builtins' paths", len(rec), 3)
+    # the Concat arm of write_to_vec stays iterative
+    wk = "quiver_core::binary::BinaryData::write_to_vec"
+    if wk in F.fns:
+        fn = F.fn(wk)
+        ms = [m for m in hir.matches(hir.body_of(fn)) if "BinaryData" in (m.get("sty") or "")]
+        ok = False
+        detail = []
+        for m in ms:
+            arms = hir.arms_for_variant(m, "quiver_core::binary::BinaryData", "Concat")
+            for _i, arm, _d in arms:
+                keys = hir.call_keys(arm["body"])
+                back = [k for k in keys if not k.endswith("BinaryData::len") and
+                        (k.split("::{closure")[0] in REVIEWED_RECURSION or (k in F.fns and k in reach and reaches(k, wk)))]
+                detail += back
+                ok = ok or not back
+        if not ms:
+            raise CheckError("%s: the match over BinaryData in write_to_vec was not found" % R)
+        ctx.check(ok and not detail, R, wk + "|Concat-iterative", "the Concat arm pushes its children on the explicit work stack (no recursive call)",
+                  "the Concat arm of write_to_vec calls back into the recursive group (%s): flattening a long append-built rope recurses once per "
+                  "append" % sorted(set(detail)), "%s:%d" % (fn["file"], fn["line"]))
+
+
 def run(ctx):
-    ctx.run_rules([r1_sinks, r3_size_limit, r4_representation_independence, r5_rope_shape])
+    ctx.run_rules([r1_sinks, r3_size_limit, r4_representation_independence, r5_rope_shape, r6_recursion])
     ctx.note("NOT decided: agreement of results with a reference model (value level), e.g. the 64-bit field read across 9 bytes (observation F4) or the "
              "contents produced by rope operations")
     return (
